@@ -88,7 +88,7 @@ def _changed_depends_on(f, g, bcalls, bnodes, changed):
     """When self.changed() is conditional after the builtin ran: say on what.  A test of the builtin's RESULT
     (or of the arguments) is never a proof that the builtin did not mutate -- `dict.pop(k, d) is d` also holds
     for a present key whose value is d."""
-    pm = f.module.parents()
+    pm = f.pm if hasattr(f, "pm") else f.module.parents()
     resvars = set()
     for _, c in bcalls:
         par = pm.get(c)
@@ -126,6 +126,9 @@ def r2(ctx):
             if f is None or f.type_only:
                 ctx.ok(key, "no override to examine (reported by C49-R1)", nontrivial=False)
                 continue
+            # extracted helpers (`self._notify()`, `return self._changed_and_return(<builtin call>)`) inlined; sibling
+            # mutators and changed() itself are the rule's vocabulary and stay calls
+            f = normal_form(ctx, f, keep=tuple(muts) + ("changed",), alias=None, foreign=False)
             g = ctx.cfg(f)
             problems = []
             bcalls = [(n, c) for n, c in _builtin_calls(f.node, t) if n in muts]
@@ -144,7 +147,7 @@ def r2(ctx):
                     ok = False
                     after = g.reachable(bnodes, edge_ok=no_exc)
                     for n, c in bcalls:
-                        par = f.module.parents().get(c)
+                        par = f.pm.get(c)
                         if isinstance(par, ast.Return):
                             ok = True
                         elif isinstance(par, (ast.Assign, ast.AnnAssign)):
@@ -1085,3 +1088,20 @@ R.mutant("listener-table-lacks-unpickle", MUT, sub(
     _REGS,
     "        for event_name, handler in ((\"pickle\", pickle),):\n"
     "            event.listen(\n                parent_cls, event_name, handler, raw=True, propagate=True\n            )\n"), "C49-R4")
+
+# C49-R2 through an extracted helper
+_POPITEM = "        result = dict.popitem(self)\n        self.changed()\n        return result\n"
+_NOTIFY = "    def _changed_and_return(self, result: Any) -> Any:\n        self.changed()\n        return result\n\n"
+_POPITEM_DEF = "    def popitem(self) -> Tuple[_KT, _VT]:\n"
+R.mutant("benign-popitem-changed-through-helper", MUT, chain(
+    sub(_POPITEM, "        return self._changed_and_return(dict.popitem(self))\n"),
+    sub(_POPITEM_DEF, _NOTIFY + _POPITEM_DEF),
+), None)
+R.mutant("popitem-helper-forgets-changed", MUT, chain(
+    sub(_POPITEM, "        return self._changed_and_return(dict.popitem(self))\n"),
+    sub(_POPITEM_DEF, "    def _changed_and_return(self, result: Any) -> Any:\n        return result\n\n" + _POPITEM_DEF),
+), "C49-R2")
+R.mutant("benign-list-insert-notify-helper", MUT, chain(
+    sub("        list.insert(self, i, x)\n        self.changed()\n", "        list.insert(self, i, x)\n        self._notify()\n"),
+    sub("    def reverse(self) -> None:\n", "    def _notify(self) -> None:\n        self.changed()\n\n    def reverse(self) -> None:\n"),
+), None)
